@@ -275,7 +275,25 @@ def r7_order(cx):
             return bool(alts) and all(U(a) == "map" or (isinstance(a, ast.Attribute) and a.attr == "map") for a in alts)
         return False
     maps = [x for x in find_calls(m.body) if _is_map(x)]
-    ok = len(maps) >= 1 and all(len(x.args) == 4 and U(x.args[2]) == "v" and U(x.args[0]) == "call_serializer" for x in maps) and all(isinstance(parent(x), ast.Call) and call_name(parent(x)) == "list" for x in maps)
+    def _elementwise(x):
+        # map(call_serializer, [ser]*n, v, [exc]*n)   |   map(<local one-argument function returning call_serializer(ser, <arg>, exc)>, v)
+        if len(x.args) == 4 and U(x.args[2]) == "v" and U(x.args[0]) == "call_serializer":
+            return True
+        if len(x.args) == 2 and U(x.args[1]) == "v" and not x.keywords:
+            f = x.args[0]
+            if isinstance(f, ast.Name):
+                defs = [n for n in ast.walk(m) if isinstance(n, FUNC_TYPES) and n.name == f.id and n is not m]
+                if len(defs) == 1 and not assigns_to(m, f.id):
+                    ps = params(defs[0])
+                    body = [st for st in defs[0].body if not (isinstance(st, ast.Expr) and isinstance(st.value, ast.Constant))]
+                    if len(ps) == 1 and len(body) == 1 and isinstance(body[0], ast.Return) and isinstance(body[0].value, ast.Call):
+                        c = body[0].value
+                        return call_name(c) == "call_serializer" and len(c.args) == 3 and U(c.args[1]) == ps[0] and not c.keywords
+            if isinstance(f, ast.Lambda) and len(f.args.args) == 1 and isinstance(f.body, ast.Call):
+                c = f.body
+                return call_name(c) == "call_serializer" and len(c.args) == 3 and U(c.args[1]) == f.args.args[0].arg and not c.keywords
+        return False
+    ok = len(maps) >= 1 and all(_elementwise(x) for x in maps) and all(isinstance(parent(x), ast.Call) and call_name(parent(x)) == "list" for x in maps)
     cx.require(ok, maps[0] if maps else m, "marshal maps the serializer over the value list in order (map / pool.map, both order preserving)",
                construct=" | ".join(short(x, 70) for x in maps) if maps else "(no map)")
     res = [a for a in walk_body(m.body) if isinstance(a, ast.Assign) and U(a.targets[0]) == "results"]
